@@ -251,28 +251,24 @@ func checkC08(c *Ctx) {
 						return "", false, false
 					}
 					return "unused", m[1] == unusedVal, true
-				case strings.Contains(cnd, "time.Since(") || strings.Contains(cnd, "time.Now().Sub("):
-					which := ""
-					if strings.Contains(cnd, ".timeoutUnused") {
-						which = "ageGtUnused"
-					} else if strings.Contains(cnd, ".timeoutActive") {
-						which = "ageGtActive"
-					} else {
+				default:
+					// the age is compared with the timeout field itself (not a derived value):
+					// "(r.timeoutX < age)" => age > T ; "(age < r.timeoutX)" => !(age >= T)
+					l, rr, ok := splitLt(cnd)
+					if !ok {
 						return "", false, false
 					}
-					if !strings.Contains(cnd, ".registrationTime") {
-						return "", false, false
+					isAge := func(x string) bool {
+						return (strings.HasPrefix(x, "time.Since(") || strings.HasPrefix(x, "time.Now().Sub(")) && strings.HasSuffix(x, ".registrationTime)") && balancedCall(x)
 					}
-					// "(T < age)" => age > T ; "(age < T)" => !(age >= T)
-					i := strings.Index(cnd, " < ")
-					if i < 0 {
-						return "", false, false
+					fld := regexp.MustCompile(`^[A-Za-z_][A-Za-z0-9_]*\.(timeoutUnused|timeoutActive)$`)
+					names := map[string]string{"timeoutUnused": "ageGtUnused", "timeoutActive": "ageGtActive"}
+					if m := fld.FindStringSubmatch(l); m != nil && isAge(rr) {
+						return names[m[1]], true, true
 					}
-					left := cnd[:i]
-					if strings.Contains(left, ".timeout") {
-						return which, true, true
+					if m := fld.FindStringSubmatch(rr); m != nil && isAge(l) {
+						return names[m[1]], false, true
 					}
-					return which, false, true
 				}
 				return "", false, false
 			}
@@ -465,4 +461,50 @@ func globalInitConst(p *Program, pkg, name string) (string, bool) {
 		}
 	})
 	return val, n == 1 && val != ""
+}
+
+// splitLt splits a canonical "(A < B)" at its top-level " < ".
+func splitLt(cnd string) (string, string, bool) {
+	if len(cnd) < 2 || cnd[0] != '(' || cnd[len(cnd)-1] != ')' {
+		return "", "", false
+	}
+	in := cnd[1 : len(cnd)-1]
+	depth := 0
+	for i := 0; i+3 <= len(in); i++ {
+		switch in[i] {
+		case '(', '[':
+			depth++
+		case ')', ']':
+			depth--
+		}
+		if depth == 0 && strings.HasPrefix(in[i:], " < ") {
+			return in[:i], in[i+3:], true
+		}
+	}
+	return "", "", false
+}
+
+// balancedCall: x is a single call expression f(...) whose last ')' closes the first '('.
+func balancedCall(x string) bool {
+	i := strings.Index(x, "(")
+	if i < 0 {
+		return false
+	}
+	// allow "time.Now().Sub(" prefix: find the last top-level opening
+	depth := 0
+	for k := 0; k < len(x); k++ {
+		switch x[k] {
+		case '(':
+			depth++
+		case ')':
+			depth--
+			if depth == 0 && k != len(x)-1 {
+				// closed before the end: only acceptable for the "time.Now()" prefix
+				if !strings.HasPrefix(x, "time.Now().Sub(") || k != len("time.Now()")-1 {
+					return false
+				}
+			}
+		}
+	}
+	return depth == 0
 }
